@@ -234,6 +234,10 @@ def check(run):
     run.rule('D3', 'for every type x mask state: which levels are hashed, descriptor mask, data or previous hash, child level l / l+1, stored depth; construction never raises on a spec-valid state', 100)
     run.rule('D4', 'get_hash(l)/get_depth(l): stored index popcount(mask & (2^l-1)); pruned branches read data[2+32h:2+32(h+1)] and the 2-byte BE depth at 2+32P+2h', 200)
     run.rule('D5', 'BoC cell parser: exotic flag is bit 3 of d1, cell type is the first data byte, fewer than 8 data bits raise', 6)
+    # cells parsed from a bag that carries stored hashes (also on exotic cells): the parser must skip them and compute hash/depth/type from the content
+    from .C05 import stored_hash_scenarios
+    from .. import bocrun as _bocrun
+    stored_hash_scenarios(run, prog, 'D5', _bocrun.dags(False), prog.where(prog.method('Boc', 'deserialize_cell')))
     run.trust('CPython ast', 'checker interpreter + bitarray/hashlib models', 'transcription of tvm.pdf 3.1.5-3.1.7 / DataCell.cpp / LevelMask')
     run.exhaustive = True
     # window distinctness of the fixed data strings
